@@ -76,12 +76,19 @@ def main():
                           if ("%s::%s" % (tc.get("classname"), tc.get("name"))) in stable and any(ch.tag in ("failure", "error") for ch in tc)]
                 row["stable_tests_broken"] = len(broken)
             t0 = time.time()
-            r = subprocess.run(["/venv/bin/python", "-m", "vp.run", "--property", prop, "--tier", a.tier], cwd=VERIF, env=env, capture_output=True, text=True)
-            row["check"] = {1: "DETECTED", 0: "MISSED", 2: "HARNESS-ERROR"}.get(r.returncode, "rc=%d" % r.returncode)
+            # the property the change was seeded against, plus related properties whose checks are documented to see it
+            for cp in [prop] + [c for c in meta.get("also_checked_by", []) if c != prop]:
+                r = subprocess.run(["/venv/bin/python", "-m", "vp.run", "--property", cp, "--tier", a.tier], cwd=VERIF, env=env, capture_output=True, text=True)
+                verdict = {1: "DETECTED", 0: "MISSED", 2: "HARNESS-ERROR"}.get(r.returncode, "rc=%d" % r.returncode)
+                row.setdefault("per_check", {})[cp] = verdict
+                if verdict == "DETECTED" or "check" not in row:
+                    row["check"] = verdict
+                    row["by"] = cp + ": " + next((l.strip()[:160] for l in r.stdout.splitlines() if l.startswith("  sub-check")), "")
+                if r.returncode == 2:
+                    row["stderr"] = r.stderr[-600:]
+                if verdict == "DETECTED":
+                    break
             row["wall_s"] = round(time.time() - t0, 1)
-            row["by"] = next((l.strip()[:160] for l in r.stdout.splitlines() if l.startswith("  sub-check")), "")
-            if r.returncode == 2:
-                row["stderr"] = r.stderr[-600:]
         except Exception as e:  # noqa
             row["error"] = str(e)[:300]
         finally:
